@@ -646,16 +646,23 @@ def m_unsupported_target(main, rng, tpl):
             else:
                 t_txt = ast.unparse(st.target)
             v_txt = ast.unparse(st.value) if st.value is not None else "0"
+            keep = rng.random() < 0.6
+            if keep and rng.random() < 0.5:
+                v_txt = ast.unparse(load(st.targets[0] if isinstance(st, ast.Assign) else st.target))
         else:
             lst, i, _l, _n = pick(rng, sites)
             t_txt, v_txt = env["a"], pick(rng, [env["b"], "0", "(1, 2)"])
+            keep = False
         form = pick(rng, _TARGET_STMTS)
         txt = form.format(t=t_txt, v=v_txt, **env)
         try:
             new = S(txt)
         except SyntaxError:
             return None
-        if mode == "assign":
+        if mode == "assign" and keep:
+            lst[i + 1:i + 1] = new      # keep the original definition (avoids masking by
+            mode = "assign_after"       # "variable not defined" errors)
+        elif mode == "assign":
             lst[i:i + 1] = new
         else:
             lst[i:i] = new
